@@ -1,6 +1,7 @@
 package props
 
 import (
+	"bytes"
 	"fmt"
 	"io"
 	"net"
@@ -197,11 +198,14 @@ func init() {
 			}
 			// Expires / Last-Modified / status heuristics without Cache-Control
 			for _, ex := range []http.Header{{"Expires": {"Thu, 01 Dec 2099 16:00:00 GMT"}}, {"Last-Modified": {"Thu, 01 Dec 1994 16:00:00 GMT"}}, {"Expires": {"Thu, 01 Dec 2099 16:00:00 GMT"}, "Last-Modified": {"Thu, 01 Dec 1994 16:00:00 GMT"}, "ETag": {`"x"`}}, {"Pragma": {"public"}}} {
-				k := c03Case{Extra: ex}
-				if got := server.VerifGetCacheMaxAge(k.header()); got > 0 {
-					c.Violation("lifetime-function", "stored-by-heuristic", fmt.Sprintf("lifetime %d without Cache-Control: %v", got, ex), nil, k, nil)
+				// ... also next to a Cache-Control that names no lifetime
+				for _, cc := range [][]string{nil, {"public"}, {"must-revalidate"}, {"public, must-revalidate"}, {"public", "immutable"}} {
+					k := c03Case{CC: cc, Extra: ex}
+					if got := server.VerifGetCacheMaxAge(k.header()); got > 0 {
+						c.Violation("lifetime-function", "stored-by-heuristic", fmt.Sprintf("lifetime %d without s-maxage / max-age: Cache-Control %v, %v", got, cc, ex), nil, k, nil)
+					}
+					st.Execs++
 				}
-				st.Execs++
 			}
 			st.States = st.Execs
 			st.Transitions = st.Execs
@@ -238,8 +242,11 @@ func init() {
 						}
 						e.Events()
 						r1 := e.Do(env.Req{Method: m, URI: "/c", Rid: "r1"})
+						// somebody else's (never stored) exchange in between
+						e.Do(env.Req{Method: "POST", URI: "/somebody-elses-login", Rid: "x", Body: []byte("user=alice&password=secret")})
 						r2 := e.Do(env.Req{Method: m, URI: "/c", Rid: "r2"})
 						an := analyze(e.Events())
+						delete(an.Reqs, "x")
 						st2.Execs++
 						st2.States += 2
 						st2.Transitions += 2
@@ -251,6 +258,9 @@ func init() {
 							continue
 						}
 						stored := r2.XStatus == "hit"
+						if stored && !bytes.Equal(r1.Body, r2.Body) {
+							viol("hit-delivers-other-bytes-than-stored", fmt.Sprintf("the hit's body %q differs from the body delivered when the response was stored %q", trunc(r2.Body), trunc(r1.Body)))
+						}
 						cl := oracle.Classify(k.header())
 						gh := m == "GET" || m == "HEAD"
 						if stored && (!gh || cl.Forbidden) {
